@@ -267,6 +267,32 @@ Theorem C03_histories2_real :
              attr_schema_location root_attrs l empty_world = Val w' -> RealInvL RT w'.
 Proof. exact RealInvL_histories2_real. Qed.
 
+(* the final form: rejected loads are covered as well; the classes are failed re-parenting (Op1 move / copy), a duplicate
+   that fails half-way, and the finding Known_load_shared *)
+Theorem C03_inv2_full :
+  forall (T : tables) (tab_el tab_at tab_en : nametab) (check_fn : N -> list N -> res bool)
+         (float_parse : list N -> option N) (float_fmt : N -> list N)
+         (LATEST name_index name_definition_ref attr_schema_location : N) (root_attrs : list (N * cdata))
+         (o : op2) (w : world) (r : out value2) (w' : world),
+    RefChars T -> TablesOk.tables_ok T = true -> RealInvL T w ->
+    Known_real2 T tab_el tab_at tab_en check_fn float_parse float_fmt LATEST name_index name_definition_ref
+                attr_schema_location root_attrs w o = false ->
+    Known_load_shared T tab_el tab_at tab_en check_fn float_parse LATEST name_definition_ref w o = false ->
+    run_op2 T tab_el tab_at tab_en check_fn float_parse float_fmt LATEST name_index name_definition_ref
+            attr_schema_location root_attrs o w = Val (r, w') -> RealInvL T w'.
+Proof. exact RealInvL_step2_full. Qed.
+
+Theorem C03_histories2_real_full :
+  forall (tab_el tab_at tab_en : nametab) (check_fn : N -> list N -> res bool)
+         (float_parse : list N -> option N) (float_fmt : N -> list N)
+         (LATEST name_index name_definition_ref attr_schema_location : N) (root_attrs : list (N * cdata))
+         (l : list op2) (w' : world),
+    clean_ops2_full RT tab_el tab_at tab_en check_fn float_parse float_fmt LATEST name_index name_definition_ref
+                    attr_schema_location root_attrs l empty_world = true ->
+    run_ops2 RT tab_el tab_at tab_en check_fn float_parse float_fmt LATEST name_index name_definition_ref
+             attr_schema_location root_attrs l empty_world = Val w' -> RealInvL RT w'.
+Proof. exact RealInvL_histories2_real_full. Qed.
+
 (* ---------- the artefact classes are empty on the real tables ---------- *)
 (* CharsLeaf: an element whose content mode is Characters has no sub-elements; kept by every operation, every table set *)
 Theorem C03_charsleaf_inv :
